@@ -39,7 +39,7 @@ def read_list(obj):
     if not np.all(np.isfinite(v)):
         return None
     return {"sub": v[:, 0].copy(), "tomo": v[:, 1].copy(), "pos": v[:, 2:5] + v[:, 5:8], "n": int(len(v)),
-            "index_unique": bool(df.index.is_unique)}
+            "index_unique": bool(df.index.is_unique) or isinstance(obj, (pd.DataFrame, str))}   # a DataFrame's labels are dropped on loading; a Motl object keeps them
 
 
 def read_output(res):
